@@ -27,9 +27,20 @@ def _write(path, obj):
 def run_property(pid, tier, seed, repo, root, t0):
     cfg = props.PROPS[pid]
     known = load_known(root)
-    known_by_ob = {k["obligation"]: k for k in known["findings"] if k["property"] == pid}
+    known_by_ob = {}
+    for k in known["findings"]:
+        if k["property"] == pid:
+            for ob in k.get("obligations", [k["obligation"]] if "obligation" in k else []):
+                known_by_ob[ob] = k
     units = []          # per-unit result dicts
     undecided = []      # reasons
+    # ------------------------------------------------------------------ generated inputs
+    pre_notes = {}
+    for hook in cfg.get("pre", []):
+        try:
+            pre_notes[hook] = props.PRE_HOOKS[hook](repo, root)
+        except Exception as e:  # noqa
+            undecided.append("pre-hook %s: %s" % (hook, e))
     # ------------------------------------------------------------------ Verus units
     for u in cfg.get("verus", []):
         r = verus_run.run_unit(u, repo, root)
@@ -76,19 +87,23 @@ def run_property(pid, tier, seed, repo, root, t0):
             continue
         kf = known_by_ob.get(o["name"])
         if kf is not None:
-            resid = by_name.get(kf.get("residual")) if kf.get("residual") else None
-            if kf.get("residual") and (resid is None or resid["status"] != "discharged"):
-                if resid is not None and resid["status"] == "failed":
-                    pass  # the residual is itself reported as a violation below
-                else:
-                    undecided.append("residual %s of known finding not discharged" % kf.get("residual"))
+            for rn in kf.get("residuals", []):
+                resid = by_name.get(rn)
+                if resid is None or resid["status"] != "discharged":
+                    if resid is not None and resid["status"] == "failed":
+                        pass  # the residual is itself reported as a violation below
+                    else:
+                        undecided.append("residual %s of known finding not discharged" % rn)
             o["known_finding"] = kf["what"]
-            known_lines.append("KNOWN-FINDING: property=%s %s [%s]" % (pid, kf["what"], o["name"]))
+            kf.setdefault("_hit", []).append(o["name"])
             continue
         if o["role"] == "aux" and cfg.get("aux_failure", "violation") == "undecided":
             undecided.append("%s: auxiliary proof step failed (%s)" % (o["name"], _why(o)))
             continue
         violations.append(o)
+    for kf in known["findings"]:
+        if kf.get("_hit"):
+            known_lines.append("KNOWN-FINDING: property=%s %s [failing as listed: %s]" % (pid, kf["what"], ", ".join(kf["_hit"])))
     unlisted = [e for r in units for e in r.get("unlisted_failures", [])]
     for e in unlisted:
         undecided.append("verus: failure in overlay-only lemma/fn `%s`: %s" % (e.get("fn"), e.get("message")))
@@ -151,8 +166,11 @@ def run_property(pid, tier, seed, repo, root, t0):
                 "clause": o.get("text"), "solver_s": o.get("solver_s", (o.get("solver_ms") or 0) / 1000.0)}
                for o in obligations]
     cov = {
-        "obligations": len(obligations),
-        "discharged": len(discharged) + sum(1 for o in obligations if o.get("known_finding")) * 0,
+        # obligations that must hold on this tree; those suppressed by a committed known finding are
+        # expected to fail and are counted separately
+        "obligations": len([o for o in obligations if not o.get("known_finding")]),
+        "discharged": len(discharged),
+        "expected_failing_known_findings": [o["name"] for o in obligations if o.get("known_finding")],
         "checker_cmd": " ; ".join(r.get("checker_cmd", "") for r in units),
         "trusted_base": trusted,
         "evaluations": len(obligations),
@@ -167,6 +185,7 @@ def run_property(pid, tier, seed, repo, root, t0):
         "extraction": [{"unit": r["unit"], **{k: r["extraction"][k] for k in ("items", "changed_vs_contract_time", "substitutions", "dropped")}}
                        for r in units if "extraction" in r],
         "kani_injection": inj,
+        "generated_inputs": pre_notes,
         "solver_time_s": round(sum((o.get("solver_s") or 0) + (o.get("solver_ms") or 0) / 1000.0 for o in obligations), 3),
         "vacuity_probes": vac,
         "undecided": undecided,
